@@ -93,3 +93,56 @@ pub fn run_threads(seed: u64, tier: &str, out: &mut Out) {
     }
     indicatif::verif_hooks::set_auto_advance_ns(0); indicatif::verif_hooks::set_stall_every(0);
 }
+
+/// constructor and builder glue (`no_length`, `new_spinner`, `with_*`, `downgrade` / `upgrade`): the bar they give has the length,
+/// position, texts and finish behaviour asked for, in whatever order the builder methods are chained, and a weak handle upgrades
+/// to the same bar exactly as long as a strong handle lives
+pub fn run_glue(seed: u64, tier: &str, out: &mut Out) {
+    let mut rng = Rng::new(seed ^ 0x61ee);
+    let n = if tier == "thorough" { 20_000 } else { 400 };
+    // the virtual clock stands well after its epoch: `with_elapsed` subtracts from it
+    indicatif::verif_hooks::set_auto_advance_ns(0);
+    indicatif::verif_hooks::set_now_ns(100_000_000_000_000);
+    for _ in 0..n {
+        let len = *rng.pick(&[0u64, 1, 10, u64::MAX]);
+        let pos = *rng.pick(&[0u64, 3, 10, u64::MAX]);
+        let tw = *rng.pick(&[0usize, 1, 4, 8]);
+        let secs = *rng.pick(&[0u64, 5, 3600]);
+        let abandon = rng.chance(1, 2);
+        let ctor = rng.below(4);
+        let mut steps: Vec<u8> = vec![0, 1, 2, 3, 4, 5, 6];
+        for i in (1..steps.len()).rev() { let j = rng.below(i as u64 + 1) as usize; steps.swap(i, j); }
+        let case = format!("GLUE ctor={ctor} len={len} pos={pos} tab={tw} elapsed={secs} abandon={abandon} order={steps:?}");
+        let mut pb = match ctor { 0 => ProgressBar::hidden(), 1 => ProgressBar::no_length(), 2 => ProgressBar::new_spinner(), _ => ProgressBar::new(len) };
+        let want_len = match ctor { 0 | 1 | 2 => None, _ => Some(len) };
+        let mut verdict = String::from("ok");
+        if pb.length() != want_len || pb.position() != 0 || pb.is_finished() { verdict = format!("FAIL constructor length {:?} position {} finished {}", pb.length(), pb.position(), pb.is_finished()); }
+        for st in &steps { pb = match st {
+            0 => pb.with_message("a\tb"), 1 => pb.with_prefix("\tp"), 2 => pb.with_position(pos), 3 => pb.with_tab_width(tw),
+            4 => pb.with_elapsed(std::time::Duration::from_secs(secs)), 5 => pb.with_finish(if abandon { ProgressFinish::Abandon } else { ProgressFinish::AndLeave }),
+            _ => pb.with_style(indicatif::ProgressStyle::with_template("{prefix}|{msg}|{pos}").unwrap()) }; }
+        let sp = " ".repeat(tw);
+        if verdict == "ok" && (pb.message() != format!("a{sp}b") || pb.prefix() != format!("{sp}p")) { verdict = format!("FAIL with_message/with_prefix/with_tab_width in order {steps:?}: {:?} {:?}", pb.message(), pb.prefix()); }
+        if verdict == "ok" && (pb.position() != pos || pb.length() != want_len) { verdict = format!("FAIL with_position: position {} length {:?}", pb.position(), pb.length()); }
+        if verdict == "ok" && pb.elapsed() < std::time::Duration::from_secs(secs) { verdict = format!("FAIL with_elapsed: {:?}", pb.elapsed()); }
+        // weak handles
+        let weak = pb.downgrade();
+        match weak.upgrade() {
+            None => { if verdict == "ok" { verdict = "FAIL upgrade of a live bar gave None".into(); } }
+            Some(up) => { up.inc(1); if verdict == "ok" && pb.position() != pos.wrapping_add(1) { verdict = format!("FAIL upgraded handle is another bar: position {}", pb.position()); } up.dec(1); }
+        }
+        if verdict == "ok" && indicatif::WeakProgressBar::new().upgrade().is_some() { verdict = "FAIL WeakProgressBar::new().upgrade() is Some".into(); }
+        // the configured finish behaviour is applied when the last handle goes
+        let keep = pb.clone();
+        drop(pb);
+        if verdict == "ok" && keep.is_finished() { verdict = "FAIL finished although a handle is alive".into(); }
+        let w2 = keep.downgrade();
+        let (p_before, l_before) = (keep.position(), keep.length());
+        keep.finish_using_style();
+        let want = if abandon { p_before } else { l_before.unwrap_or(p_before) };
+        if verdict == "ok" && (keep.position() != want || !keep.is_finished()) { verdict = format!("FAIL with_finish: position {} expected {want} finished {}", keep.position(), keep.is_finished()); }
+        drop(keep);
+        if verdict == "ok" && w2.upgrade().is_some() { verdict = "FAIL upgrade after the last strong handle is gone gave Some".into(); }
+        out.emit(&format!("NOMODEL {case}"), &format!(" ORACLE {verdict}"));
+    }
+}
